@@ -18,50 +18,50 @@ Proof. apply (option_eqb_spec beq H). reflexivity. Qed.
 
 Lemma tb_ans_refl a : tb_ans_eqb a a = true.
 Proof.
-  destruct a as [l|n|b|r|r]; cbn.
+  destruct a as [l|n|b|r|r|]; cbn.
   - apply (lrefl N.eqb N.eqb_eq). - apply N.eqb_refl. - apply bool_eqb_refl.
-  - apply rrefl. apply N.eqb_refl. - apply rrefl. apply N.eqb_refl.
+  - apply rrefl. apply N.eqb_refl. - apply rrefl. apply N.eqb_refl. - reflexivity.
 Qed.
 Lemma doc_refl d : doc_eqb d d = true. Proof. apply doc_eqb_spec. reflexivity. Qed.
 Lemma dentry_refl (e : N * doc) : dentry_eqb e e = true. Proof. apply dentry_eqb_spec. reflexivity. Qed.
 Lemma dm_ans_refl a : dm_ans_eqb a a = true.
 Proof.
-  destruct a as [n|r|r|l]; cbn.
+  destruct a as [n|r|r|l|]; cbn; [| | | |reflexivity].
   - apply N.eqb_refl. - apply rrefl. apply doc_refl. - apply rrefl. apply dentry_refl.
   - apply (lrefl dentry_eqb dentry_eqb_spec).
 Qed.
 Lemma cti_ans_refl a : cti_ans_eqb a a = true.
 Proof.
-  destruct a as [l|r|b|r|r]; cbn.
+  destruct a as [l|r|b|r|r|]; cbn; [| | | | |reflexivity].
   - apply (lrefl N.eqb N.eqb_eq). - apply rrefl. intros x. apply (lrefl N.eqb N.eqb_eq).
   - apply bool_eqb_refl. - apply rrefl. apply bool_eqb_refl.
   - apply rrefl. intros m. apply lrefl. apply pair_eqb_spec; [apply N.eqb_eq|apply (list_eqb_spec N.eqb N.eqb_eq)].
 Qed.
 Lemma ck_ans_refl a : ck_ans_eqb a a = true.
 Proof.
-  destruct a as [r|r|b]; cbn.
+  destruct a as [r|r|b|]; cbn; [| | |reflexivity].
   - apply rrefl. intros l. apply (lrefl skey_eqb skey_eqb_spec).
   - apply rrefl. intros l. apply (lrefl N.eqb N.eqb_eq). - apply bool_eqb_refl.
 Qed.
 Lemma irs_ans_refl a : irs_ans_eqb a a = true.
 Proof.
-  destruct a as [r|r|r|l|o]; cbn.
+  destruct a as [r|r|r|l|o|]; cbn; [| | | | |reflexivity].
   - apply rrefl. apply N.eqb_refl.
   - apply rrefl. intros p. unfold profile_eqb, pair_eqb. rewrite N.eqb_refl, (lrefl cdata_eqb cdata_eqb_spec). reflexivity.
   - apply rrefl. intros d. apply cdata_eqb_spec. reflexivity.
   - apply (lrefl cdata_eqb cdata_eqb_spec). - apply (orefl N.eqb N.eqb_eq).
 Qed.
 Lemma cm_ans_refl a : cm_ans_eqb a a = true.
-Proof. destruct a as [l|b]; cbn; [apply (lrefl N.eqb N.eqb_eq)|apply bool_eqb_refl]. Qed.
+Proof. destruct a as [l|b|]; cbn; [apply (lrefl N.eqb N.eqb_eq)|apply bool_eqb_refl|reflexivity]. Qed.
 Lemma ic_ans_refl a : ic_ans_eqb a a = true.
 Proof.
-  destruct a as [r|l]; cbn.
+  destruct a as [r|l|]; cbn; [| |reflexivity].
   - apply rrefl. intros x. apply claim_eqb_spec. reflexivity. - apply (lrefl cid_eqb cid_eqb_spec).
 Qed.
 Lemma rule_refl r : rule_eqb r r = true. Proof. apply rule_eqb_spec. reflexivity. Qed.
 Lemma sa_ans_refl a : sa_ans_eqb a a = true.
 Proof.
-  destruct a as [r|r|n]; cbn.
+  destruct a as [r|r|n|]; cbn; [| | |reflexivity].
   - apply rrefl. apply rule_refl. - apply rrefl. intros l. apply (lrefl rule_eqb rule_eqb_spec). - apply N.eqb_refl.
 Qed.
 Lemma unit_refl (u : unit) : unit_eqb u u = true. Proof. reflexivity. Qed.
@@ -87,24 +87,65 @@ Proof.
   - (* monitor *)
     destruct k as [bs max pre cs|bs max mu pre cs|mt mi cs|mk mr cs|mc mm ml cs|mx cs|cs|mr ms mp now cs];
       cbn [observe_model monitor calls_wf] in *; try rewrite Hwf.
-    + apply (@mon_model _ _ _ _ _ _ _ _ _ (tb_rel (tb_cfg_of bs max)) (fun _ => true)); auto using all_true.
-      * intros s a cq HR _. apply tb_mon_step; auto. eapply pre_ok_bs; eauto.
-      * apply tb_rel_start; auto. eapply pre_ok_bs; eauto.
-    + apply (@mon_model _ _ _ _ _ _ _ _ _ (dm_rel (dm_cfg_of bs max mu)) (fun _ => true)); auto using all_true.
-      * intros s a cq HR _. apply dm_mon_step; auto. eapply dm_pre_ok_bs; eauto.
-      * apply dm_rel_start; auto. eapply dm_pre_ok_bs; eauto.
-    + apply (@mon_model _ _ _ _ _ _ _ _ _ (cti_rel) (fun _ => true)); auto using all_true, cti_rel_init.
-      intros s a cq HR _. apply cti_mon_step; auto.
-    + apply (@mon_model _ _ _ _ _ _ _ _ _ (ck_rel) (fun _ => true)); auto using all_true, ck_rel_init.
-      intros s a cq HR _. apply ck_mon_step; auto.
-    + apply (@mon_model _ _ _ _ _ _ _ _ _ (irs_rel) (fun _ => true)); auto using all_true, irs_rel_init.
-      intros s a cq HR _. apply irs_mon_step; auto.
-    + apply (@mon_model _ _ _ _ _ _ _ _ _ (cm_rel) (fun _ => true)); auto using all_true.
-      * intros s a cq HR _. apply cm_mon_step; auto.
-      * split; auto. apply cm_init_inv.
-    + apply (@mon_model _ _ _ _ _ _ _ _ _ (ic_rel) (fun _ => true)); auto using all_true.
-      * intros s a cq HR _. apply ic_mon_step; auto.
-      * split; auto. apply ic_init_inv.
-    + apply (@mon_model _ _ _ _ _ _ _ _ _ (sa_rel (sa_cfg_of mr ms mp now)) (fun _ => true)); auto using all_true, sa_rel_init.
-      intros s a cq HR _. apply sa_mon_step; auto.
+    + pose proof (pre_ok_bs _ _ _ Hwf) as Hb.
+      apply (@mon_model _ _ _ _ _ _ _ _ _ (lRel (tb_rel (tb_cfg_of bs max))) (fun _ => true)); auto using all_true.
+      * intros sl al cq HR _. unfold tb_mon, tb_lstep.
+        apply (@lmon_step _ _ _ _ _ (fun _ => tb_step (tb_cfg_of bs max)) (tb_answer (tb_cfg_of bs max)) tt _
+                 (fun _ => spec_unit (tb_spec (tb_cfg_of bs max))) tb_chk tb_cross (tb_rel (tb_cfg_of bs max))); auto.
+        -- intros _ s a cq0 H. apply tb_mon_step; auto.
+        -- intros s a q H. apply tb_chk_ok; auto.
+        -- intros s a qs H. apply tb_cross_ok; auto.
+      * split; [apply tb_rel_start; auto|reflexivity].
+    + pose proof (dm_pre_ok_bs _ _ _ _ Hwf) as Hb.
+      apply (@mon_model _ _ _ _ _ _ _ _ _ (lRel (dm_rel (dm_cfg_of bs max mu))) (fun _ => true)); auto using all_true.
+      * intros sl al cq HR _. unfold dm_mon, dm_lstep.
+        apply (@lmon_step _ _ _ _ _ (fun _ => dm_step (dm_cfg_of bs max mu)) (dm_answer (dm_cfg_of bs max mu)) tt _
+                 (fun _ => spec_unit (dm_spec (dm_cfg_of bs max mu))) dm_chk (dm_cross (dm_cfg_of bs max mu)) (dm_rel (dm_cfg_of bs max mu))); auto.
+        -- intros _ s a cq0 H. apply dm_mon_step; auto.
+        -- intros s a q H. apply dm_chk_ok; auto.
+        -- intros s a qs H. apply dm_cross_ok; auto.
+      * split; [apply dm_rel_start; auto|reflexivity].
+    + apply (@mon_model _ _ _ _ _ _ _ _ _ (lRel cti_rel) (fun _ => true)); auto using all_true.
+      * intros sl al cq HR _. unfold cti_mon, cti_lstep.
+        apply (@lmon_step _ _ _ _ _ (fun _ => cti_step (cti_cfg_of mt mi)) cti_answer tt _
+                 (fun _ => spec_unit (cti_spec (cti_cfg_of mt mi))) cti_chk (fun _ _ => true) cti_rel); auto.
+        -- intros _ s a cq0 H. apply cti_mon_step; auto.
+        -- intros s a q H. apply cti_chk_ok; auto.
+      * split; [apply cti_rel_init|reflexivity].
+    + apply (@mon_model _ _ _ _ _ _ _ _ _ (lRel ck_rel) (fun _ => true)); auto using all_true.
+      * intros sl al cq HR _. unfold ck_mon, ck_lstep.
+        apply (@lmon_step _ _ _ _ _ (fun _ => ck_step (ck_cfg_of mk mr)) ck_answer tt _
+                 (fun _ => spec_unit (ck_spec (ck_cfg_of mk mr))) ck_chk (fun _ _ => true) ck_rel); auto.
+        -- intros _ s a cq0 H. apply ck_mon_step; auto.
+        -- intros s a q H. apply ck_chk_ok; auto.
+      * split; [apply ck_rel_init|reflexivity].
+    + apply (@mon_model _ _ _ _ _ _ _ _ _ (lRel irs_rel) (fun _ => true)); auto using all_true.
+      * intros sl al cq HR _. unfold irs_mon, irs_lstep.
+        apply (@lmon_step _ _ _ _ _ (fun _ => irs_step (irs_cfg_of mc mm ml)) irs_answer tt _
+                 (fun _ => spec_unit (irs_spec (irs_cfg_of mc mm ml))) irs_chk (fun _ _ => true) irs_rel); auto.
+        -- intros _ s a cq0 H. apply irs_mon_step; auto.
+        -- intros s a q H. apply irs_chk_ok; auto.
+      * split; [apply irs_rel_init|reflexivity].
+    + apply (@mon_model _ _ _ _ _ _ _ _ _ (lRel cm_rel) (fun _ => true)); auto using all_true.
+      * intros sl al cq HR _. unfold cm_mon, cm_lstep.
+        apply (@lmon_step _ _ _ _ _ (fun _ => cm_step (cm_cfg_of mx)) cm_answer tt _
+                 (fun _ => spec_unit (cm_spec (cm_cfg_of mx))) cm_chk (fun _ _ => true) cm_rel); auto.
+        -- intros _ s a cq0 H. apply cm_mon_step; auto.
+        -- intros s a q H. apply cm_chk_ok; auto.
+      * split; [split; auto; apply cm_init_inv|reflexivity].
+    + apply (@mon_model _ _ _ _ _ _ _ _ _ (lRel ic_rel) (fun _ => true)); auto using all_true.
+      * intros sl al cq HR _. unfold ic_mon, ic_lstep.
+        apply (@lmon_step _ _ _ _ _ (fun _ => ic_step) ic_answer None _
+                 (fun _ => ic_spec) ic_chk (fun _ _ => true) ic_rel); auto.
+        -- intros _ s a cq0 H. apply ic_mon_step; auto.
+        -- intros s a q H. apply ic_chk_ok; auto.
+      * split; [split; auto; apply ic_init_inv|reflexivity].
+    + set (c := sa_cfg_of mr ms mp now).
+      apply (@mon_model _ _ _ _ _ _ _ _ _ (lRel (sa_rel c)) (fun _ => true)); auto using all_true.
+      * intros sl al cq HR _. unfold sa_mon, sa_lstep.
+        apply (@lmon_step _ _ _ _ _ (fun n => sa_step (sa_with_now c n)) sa_answer None _
+                 (fun n => sa_spec (sa_with_now c n)) sa_chk (fun _ _ => true) (sa_rel c)); auto.
+        -- intros n s a cq0 H. apply (@sa_mon_step (sa_with_now c n) s a cq0 H).
+        -- intros s a q H. apply (@sa_chk_ok c s a q H).
+      * split; [apply sa_rel_init|reflexivity].
 Qed.
